@@ -7,7 +7,7 @@ cd $WT || exit 2
 git checkout -q -- . ; rm -f tests/seeded_*.rs
 demo=seeded_${ID}_${V}
 feat=""
-grep -q 'features' $S/$V.meta.json 2>/dev/null && grep -q 'futures' $S/$V.meta.json && feat="--features checkpoint,futures"
+grep -E -q '"features": *"[^"]*(futures|checkpoint)' $S/$V.meta.json 2>/dev/null && feat="--features checkpoint,futures"
 cp $S/$demo.rs tests/ || exit 2
 r_pristine=$(timeout 600 cargo test --offline $feat --test $demo 2>&1 | grep -E "^test result" | tail -1)
 git apply $S/$V.patch.diff || { echo "$ID $V: patch does not apply"; exit 1; }
